@@ -3,8 +3,8 @@ package main
 import (
 	"encoding/json"
 	"fmt"
-	"path/filepath"
 	"os"
+	"path/filepath"
 	"runtime"
 	"sort"
 	"strings"
@@ -81,6 +81,10 @@ func runCheck(prop, tier string) int {
 		return runE3(prop, tier)
 	case "C05", "C06":
 		return runE4(prop, tier)
+	case "C15":
+		return runC15(tier)
+	case "C17", "C18":
+		return runE5(prop, tier)
 	case "C16":
 		return runC16(tier)
 	case "C20":
@@ -222,6 +226,14 @@ func planE1(prop, tier string) *e1Plan {
 			p.add(pr, cfg24())
 			p.add(v, cfg24())
 		}
+		lp := scopeListPkg()
+		p.pkgs = append(p.pkgs, lp)
+		for _, l := range scopeListArgs() {
+			for _, c := range K2 {
+				p.cases = append(p.cases, &Case{Dir: lp.Dir, Ifaces: l, Cfg: c, Scope: "S-list"})
+			}
+			p.cases = append(p.cases, &Case{Dir: lp.Dir, Ifaces: l, Cfg: Cfg{Skip: true, Pkg: 2}, Scope: "S-list"})
+		}
 		p.rule = "S-cfg×192, S-type1 (parameter, result and variadic position of every type of T_1), S-embed, S-gen × configuration subsets; oracle: go/types assignability, per-method types.Identical, exactly one identical <M>Func field; generic interfaces at every accepted candidate instantiation"
 	case "C09":
 		p.oracle = oracleC09
@@ -297,6 +309,22 @@ func runE1(prop, tier string) int {
 	validateFixture(fx)
 	results := runCases(fx, plan.cases, rep, func(r *Result) []*Violation { return plan.oracle(r) })
 	_ = results
+	switch prop {
+	case "C11":
+		depth := 3
+		if tier == "thorough" {
+			depth = 4
+		}
+		e2Imports(fx, work, rep, prop, depth)
+		plan.rule += fmt.Sprintf("; plus E2: breadth-first search over all AddImport sequences up to depth %d on the real registry (28 path shapes incl. vendored, nested-vendored, other-domain, keyword- and digit-leading, sanitise-equal; 5 source-alias maps) with invariants evaluated in every state (qualifiers unique and valid identifiers, no vendor prefix, alias kept); predictions of on-disk sequences replayed through the real generator", depth)
+	case "C12":
+		depth := 2
+		if tier == "thorough" {
+			depth = 3
+		}
+		e2Vars(work, rep, prop, depth)
+		plan.rule += fmt.Sprintf("; plus E2: every AddVar sequence up to depth %d (12 names x 10 types) in one method scope of the real registry, invariants on names after every step", depth)
+	}
 	rep.Set("rule", plan.rule)
 	rep.Set("bounds", plan.bounds)
 	rep.Assume = []string{
@@ -559,6 +587,16 @@ func validateFixture(fx *Fixture) {
 
 func runC14(tier string) int {
 	rep := NewReport("C14", tier, "model_checking", "E1+E2")
+	{
+		work := workDir()
+		fx := NewFixture(work+"/fx", nil)
+		depth, dev := 2, 2
+		if tier == "thorough" {
+			depth, dev = 3, 3
+		}
+		e2Order(fx, work, rep, depth, dev)
+		cleanup(work)
+	}
 	runC14E1(rep, tier)
 	rep.Set("rule", "repetition leg: every case generated 3x in one process with fresh Mockers and once in another process, bytes compared (samples the runtime's map order); order leg (E2): see states/transitions")
 	if _, ok := rep.Cov["distinct_nontrivial"]; !ok {
@@ -575,7 +613,15 @@ func runC19(tier string) int {
 	fx := NewFixture(work+"/fx", dedupPkgs(plan.pkgs))
 	validateFixture(fx)
 	runCases(fx, plan.cases, rep, plan.oracle)
-	rep.Set("rule", plan.rule)
+	depth := 3
+	if tier == "thorough" {
+		depth = 4
+	}
+	e2Imports(nil, work, rep, "C19", depth)
+	e2Vars(work, rep, "C19", 2)
+	e5Alphabet(fx, work, rep, "C19", tier == "thorough")
+	rep.Set("rule", plan.rule+"; plus (E2) every AddImport sequence up to the stated depth over a 28-shape adversarial path alphabet x 5 source-alias maps on the real registry with crash attribution, and (E5) the CLI failure alphabet (13 kinds of bad argument at every position, unloadable packages, unwritable destinations): exit status 1 with a diagnostic naming the type or stage, never a runtime panic")
 	rep.Set("bounds", plan.bounds)
+	rep.Set("e2_import_depth", depth)
 	return rep.Finish()
 }
